@@ -166,3 +166,6 @@ def register(PROPS, CLASSIFIERS, REPLAY_RUNNERS):
     for _n in ("c12a-system-entry-of-deep-actor-lost-on-restore", "c12a-sync-restored-child-has-no-watcher-thread",
                "c12a-system-entry-of-parked-actor-dropped", "c12a-async-resume-raises-on-stopped-child"):
         CLASSIFIERS[_n] = _c12acls(_n)
+
+    # ------------------------------------------------------------------ C14: stop() while a service's teardown misbehaves
+    PROPS["C14"]["q_checks"].append(_lazy("c14svc", "c14_raising_service_teardown"))
